@@ -52,8 +52,9 @@ MANIFEST = {
             "EST5EDT), and again twice in one interpreter (forward, reversed), and must give the same outcomes. Aware values are "
             "compared by their UTC instant (which offset carries it is not compared). Version times that are zone-aware datetimes "
             "in the second reading of a repeated DST hour (fold=1): the model works with the value's true fixed offset; code "
-            "whose push-ahead arithmetic forgets the fold (finding C05-fudge-modified-resets-fold, fix proposed) is detected by a "
-            "probe, such chains are then judged by the oracle only. The model "
+            "whose push-ahead arithmetic forgets the fold (C05-fudge-modified-resets-fold, fixed by 8678306) is detected by a "
+            "probe and such chains are then judged by the oracle only; the current code pushes on the UTC time line and all "
+            "chains go through the correspondence. The model "
             "takes uuid.UUID() to accept the canonical 36-character form only. Assumed: keyword "
             "arguments and dict keys distinct; spec versions 2.0 and 2.1; for dict chains no change set rewrites spec_version "
             "(shown necessary); timestamps within years 1..9999. No axioms.",
@@ -75,7 +76,7 @@ MARKS = ["marking-definition--613f2e26-407d-48c7-9eca-b8e91df99dc9", "marking-de
 import random as _random
 _g = stixgen.Gen(_random.Random(20260929), spec={"classes": {}, "registries": {}})
 MARKS = MARKS + ["marking-definition--%s" % _g.uuid(4) for i in range(70)]        # version-4 UUIDs (2.0 requires them)
-MARK_SIZES = [1, 1, 1, 2, 2, 2, 3, 9, 10, 11, 64, 65]        # both sides of plausible bounds
+MARK_SIZES = [1, 1, 1, 1, 2, 2, 2, 2, 3, 3, 9, 10, 11, 64, 65]        # both sides of plausible bounds
 FINDING_NAIVE = "C05-naive-datetime-cannot-be-versioned"
 FINDING_MAPPING = "C05-non-dict-mapping-mixed-precision-rules"
 FINDING_FOLD = "C05-fudge-modified-resets-fold"
@@ -1180,7 +1181,7 @@ def local_zone_runs(run, cases, impl):
 def repeat_runs(run, cases, impl):
     """History / order: a sample of the chains run again, twice in one interpreter -- in the original order and then
     reversed, so that every chain comes after other types, other spec versions, failed operations: same outcomes."""
-    idx = list(range(0, len(cases), max(1, len(cases) // 160)))
+    idx = list(range(0, len(cases), max(1, len(cases) // 110)))
     out, nd, unstable = [], 0, 0
     for b in range(0, len(idx), 80):
         part = idx[b:b + 80]
